@@ -59,6 +59,7 @@ func main() {
 	witn := flag.Int("witnesses", 3, "reachability witnesses to emit")
 	verbose := flag.Bool("v", false, "verbose")
 	slow := flag.String("slowdir", "", "dump slow/unknown queries here")
+	maxtime := flag.Int("maxtime", 0, "stop exploring after this many seconds (inconclusive)")
 	flag.Parse()
 
 	t0 := time.Now()
@@ -102,7 +103,7 @@ func main() {
 		Cuts: map[string]*ssa.Function{}, HarnessP: hp, Stats: map[string]int{}, Reached: map[string]int{}, AssertsN: map[string]int{},
 		FuncsHit: map[*ssa.Function]bool{}, Stubs: map[string]bool{}, Assumes: map[string]bool{}, MaxFind: *maxfind, MaxSteps: *maxsteps,
 		DefUnw: *unwind, MergeOn: *merge, MergeBud: *mergeBud, arrNames: map[string]*Term{}, arrLens: map[string]*Term{}, Verbose: *verbose,
-		joinMemo: map[*ssa.BasicBlock]*joinInfo{}}
+		joinMemo: map[*ssa.BasicBlock]*joinInfo{}, BranchSites: map[string]int{}}
 	for _, c := range cutSpecs {
 		h := hp.Func(c[1])
 		if h == nil {
@@ -118,6 +119,9 @@ func main() {
 		if h := hp.Func(model); h != nil {
 			e.Cuts[lib] = h
 		}
+	}
+	if *maxtime > 0 {
+		e.Deadline = time.Now().Add(time.Duration(*maxtime) * time.Second)
 	}
 	t1 := time.Now()
 	st := &State{Heap: map[int]Value{}, Unwind: *unwind}
@@ -191,6 +195,21 @@ func main() {
 			fmt.Printf("  INCONCLUSIVE: %s\n", i)
 		}
 		fmt.Printf("  reached=%v stats=%v backends=%v\n", e.Reached, e.Stats, sol.ByBackend)
+		type kv struct {
+			k string
+			v int
+		}
+		var sites []kv
+		for k, v := range e.BranchSites {
+			sites = append(sites, kv{k, v})
+		}
+		sort.Slice(sites, func(i, j int) bool { return sites[i].v > sites[j].v })
+		for i, x := range sites {
+			if i >= 8 {
+				break
+			}
+			fmt.Printf("  hot branch %6d  %s\n", x.v, x.k)
+		}
 	}
 }
 
